@@ -62,6 +62,51 @@ func c02(c *an.Ctx) {
 				f.Guarded(r, last, "lastAppendTime advances only for strictly newer rows", an.AtomLike(`^p1\.WriteRec\.lastAppendTime<p2$`, true))
 			}
 		}
+		// the chunk's time bounds prune memtable reads (getSortedRecSafe): both bounds are maintained for EVERY appended row
+		if f := fn(r, MU+":tsMemTableImpl.appendFields"); f != nil {
+			app := f.Find(call(r, R+":AppendFieldsToRecord"))
+			for _, b := range []struct{ field, atom, what string }{
+				{"firstAppendTime", `^p2<p1\.WriteRec\.firstAppendTime$`, "lower"},
+				{"lastAppendTime", `^p1\.WriteRec\.lastAppendTime<p2$`, "upper"},
+			} {
+				fo := obj(r, MU+":WriteRec."+b.field)
+				st := f.Find(an.MStore("writeRec."+b.field+" = time", fo, nil))
+				if r.Failed() {
+					break
+				}
+				r.AddSites(st.Len())
+				// the comparison that decides the update is evaluated on every path to the append
+				var cmpV []int
+				for _, v := range f.G.Vs {
+					if !v.IsCond {
+						continue
+					}
+					for _, a := range f.Implied(v.Cond, true) {
+						if regexp.MustCompile(b.atom).MatchString(a.Key) {
+							cmpV = append(cmpV, v.ID)
+						}
+					}
+					for _, a := range f.Implied(v.Cond, false) {
+						if regexp.MustCompile(b.atom).MatchString(a.Key) {
+							cmpV = append(cmpV, v.ID)
+						}
+					}
+				}
+				if len(cmpV) == 0 || st.Len() == 0 {
+					r.Fail(f.Name+": "+b.field+" not maintained", c.P.Pos(f.Body.Pos()), "the %s time bound of the chunk (%s) is no longer compared with / set from the row time", b.what, b.field)
+					continue
+				}
+				cut := map[int]bool{}
+				for _, v := range cmpV {
+					cut[v] = true
+				}
+				for _, a := range app.List {
+					if p := f.FPath([]int{f.G.Entry}, a.V, cut, nil); p != nil {
+						r.Fail(f.Name+": "+b.field+" skipped on some path", c.P.Pos(a.Node.Pos()), "a row can be appended without comparing its time with %s (%s): the chunk's %s bound goes stale and a time-bounded read of the memtable skips the chunk although it holds rows in range", b.field, f.DescribePath(p), b.what)
+					}
+				}
+			}
+		}
 		if f := fn(r, MU+":WriteRec.SortRecord"); f != nil {
 			srt := f.Find(call(r, R+":ColumnSortHelper.Sort"))
 			if !r.Failed() {
